@@ -139,7 +139,10 @@ class Ctx:
 def run_java_tlc(workdir, module, cfg, workers=1, timeout=600, heap="3g", extra=(), props=(), line_sink=None):
     """line_sink(line) -> True when it consumed the line (generator output): such lines are not kept in the returned text,
     so that a generator run with millions of printed schedules is parsed as a stream."""
-    cmd = ["java", "-XX:+UseParallelGC", "-Xmx" + heap, "-Xss64m"]
+    # TLC leaves an empty tlc-<n> directory in java.io.tmpdir per run: keep them inside the scratch directory of the check
+    jtmp = os.path.join(workdir, "jtmp")
+    os.makedirs(jtmp, exist_ok=True)
+    cmd = ["java", "-XX:+UseParallelGC", "-Xmx" + heap, "-Xss64m", "-Djava.io.tmpdir=" + jtmp]
     cmd += ["-D" + p for p in props]
     cmd += ["-cp", TLA_CP, "tlc2.TLC", "-workers", str(workers), "-metadir", os.path.join(workdir, "md-" + cfg.replace(".cfg", "")),
             "-config", cfg] + list(extra) + [module]
